@@ -174,4 +174,11 @@ example : specNext documented 0 false [49, 101, 53] = some (37, 3) := by decide 
 example : specNext (setRule 37 rxFloatTexi documented) 0 false [49, 101, 53] = some (38, 1) := by
   decide +kernel
 
+/-- Every scanner rule action of the compiled scanner has its catalogued text (the translator
+re-reads the `case N:` bodies of lib/scanner.c on every run; an edited action becomes
+`.unknown`), and so has the shared `<<EOF>>` action. -/
+theorem C18_actions_known :
+    (∀ a ∈ Generated.scanActions.drop 1, a ≠ ScanAct.unknown) ∧ Generated.scanner.eofActionKnown = true ∧
+    Generated.scanActions.length = Generated.scanner.numRules + 1 := by decide
+
 end Libconfig.C18
